@@ -206,9 +206,17 @@ def mutants(stream: Stream, opt: dict, rng):
                     if nid != 0:
                         yield "name-zero-form-overflow", (fi, ri), path, rep(("iri", pid, 0))
                     yield "name-ref-unfilled", (fi, ri), path, rep(("iri", pid, N))
+                    if N >= 3 and rng.random() < .5:
+                        # a table filled SPARSELY (legal): the top slot is assigned right before this row, and the row refers to
+                        # the never-assigned slot just below it - a gap under the highest assigned id
+                        s2 = stream.inserted(fi, ri, ("name", {"id": N, "value": "gapfill"}))
+                        yield "name-ref-unfilled", (fi, ri + 1), path, s2.replaced(fi, ri + 1, (kind, set_path(body, path, ("iri", pid, N - 1))))
                     if P:
                         yield "prefix-ref-beyond-size", (fi, ri), path, rep(("iri", P + rng.choice([1, 1, 9, 70000]), nid))
                         yield "prefix-ref-unfilled", (fi, ri), path, rep(("iri", P, nid))
+                        if P >= 3 and rng.random() < .5:
+                            s2 = stream.inserted(fi, ri, ("prefix", {"id": P, "value": "http://gapfill/"}))
+                            yield "prefix-ref-unfilled", (fi, ri + 1), path, s2.replaced(fi, ri + 1, (kind, set_path(body, path, ("iri", P - 1, nid))))
                     else:
                         yield "prefix-ref-disabled-table", (fi, ri), path, rep(("iri", rng.choice([1, 2, 50]), nid))
                 elif t[0] == "lit":
@@ -216,6 +224,9 @@ def mutants(stream: Stream, opt: dict, rng):
                     if lk == "dt":
                         yield "datatype-ref-beyond-size", (fi, ri), path, rep(("lit", lex, "dt", D + rng.choice([1, 1, 5, 99999])))
                         yield "datatype-ref-unfilled", (fi, ri), path, rep(("lit", lex, "dt", D))
+                        if D >= 3 and rng.random() < .5:
+                            s2 = stream.inserted(fi, ri, ("datatype", {"id": D, "value": "http://gapfill/dt"}))
+                            yield "datatype-ref-unfilled", (fi, ri + 1), path, s2.replaced(fi, ri + 1, (kind, set_path(body, path, ("lit", lex, "dt", D - 1))))
                         yield "datatype-ref-zero", (fi, ri), path, rep(("lit", lex, "dt", 0))
                     elif lk == "simple":
                         if D == 0:
